@@ -104,7 +104,7 @@ namespace
             behavior_count_exit(std::shared_ptr<d_array> arr) : m_array(arr), m_index(0), m_size(arr->size()), m_count(0) {}
             virtual result enact(sqf::runtime::runtime& runtime, sqf::runtime::frame& frame) override
             {
-                auto res = runtime.context_active().pop_value();
+                auto res = runtime.context_active().pop_value_or_nil(); // a finished scope always yields one value
                 if (res.has_value())
                 {
                     if (res->is<t_boolean>())
@@ -282,7 +282,7 @@ namespace
             virtual result enact(sqf::runtime::runtime& runtime, sqf::runtime::frame& frame) override
             {
                 m_count++;
-                auto res = runtime.context_active().pop_value();
+                auto res = runtime.context_active().pop_value_or_nil(); // a finished scope always yields one value
                 if (res.has_value())
                 {
                     auto value = res->data_try<d_boolean, bool>();
@@ -358,7 +358,7 @@ namespace
                 {
                     case behavior_while_exit::mode::Condition:
                     {
-                        auto res = runtime.context_active().pop_value();
+                        auto res = runtime.context_active().pop_value_or_nil(); // a finished scope always yields one value
                         if (res.has_value())
                         {
                             if (res->is<t_boolean>())
@@ -680,7 +680,7 @@ namespace
             behavior_select_exit(std::shared_ptr<d_array> arr) : m_array(arr), m_index(0), m_size(arr->size()) {}
             virtual result enact(sqf::runtime::runtime& runtime, sqf::runtime::frame& frame) override
             {
-                auto res = runtime.context_active().pop_value();
+                auto res = runtime.context_active().pop_value_or_nil(); // a finished scope always yields one value
                 if (res.has_value())
                 {
                     if (res->is<t_boolean>())
@@ -907,7 +907,7 @@ namespace
             behavior_findif_exit(std::shared_ptr<d_array> arr) : m_array(arr), m_index(0), m_size(arr->size()) {}
             virtual result enact(sqf::runtime::runtime& runtime, sqf::runtime::frame& frame) override
             {
-                auto res = runtime.context_active().pop_value();
+                auto res = runtime.context_active().pop_value_or_nil(); // a finished scope always yields one value
                 if (res.has_value())
                 {
                     auto value = res->data_try<d_boolean, bool>();
@@ -1015,7 +1015,7 @@ namespace
             virtual result enact(sqf::runtime::runtime& runtime, sqf::runtime::frame& frame) override
             {
                 m_count++;
-                auto res = runtime.context_active().pop_value();
+                auto res = runtime.context_active().pop_value_or_nil(); // a finished scope always yields one value
                 if (res.has_value())
                 {
                     auto value = res->data();
@@ -1150,7 +1150,7 @@ namespace
             behavior_apply_exit(std::shared_ptr<d_array> arr) : m_array(arr), m_index(0), m_size(arr->size()) {}
             virtual result enact(sqf::runtime::runtime& runtime, sqf::runtime::frame& frame) override
             {
-                auto res = runtime.context_active().pop_value();
+                auto res = runtime.context_active().pop_value_or_nil(); // a finished scope always yields one value
                 if (res.has_value())
                 {
                     m_out.push_back(*res);
